@@ -92,8 +92,12 @@ func (p *rtProp) Check(in map[string]any, model json.RawMessage) Verdict {
 		return v
 	}
 	canon, bad := canonOf(in, res)
-	for _, b := range bad {
-		v.Violations = append(v.Violations, Viol{"rt-zone", b})
+	if p.id == "C02" || len(p.id) > 2 && p.id[:2] == "RT" {
+		// presentation of instants (configured zone, local midnight, whole seconds) is C02's statement; the
+		// other realtime properties hold or fail independently of it
+		for _, b := range bad {
+			v.Violations = append(v.Violations, Viol{"rt-zone", b})
+		}
 	}
 	m, err := normBytes(mr.Result)
 	if err != nil {
